@@ -68,7 +68,7 @@ pub fn gen_cfg(mode: &str, c: &mut Rng) -> Cfg {
         name: if mode == "bulk" { "bulk" } else if faulty { "faulty" } else { "clean" },
         hosts: if tiny { c.usize_range(1, 3) } else { c.usize_range(1, 6) },
         datagrams_per_host: if tiny { c.usize_range(1, 3) } else { c.usize_range(1, 12) },
-        max_frags: if tiny { 6 } else { *c.pick(&[2usize, 3, 5, 8, 16, 40]) },
+        max_frags: if tiny { 6 } else { *c.pick(&[2usize, 3, 5, 8, 16, 40, 40, 120]) },
         big_payload_permille: if tiny { 0 } else { *c.pick(&[0u64, 0, 5, 20, 150]) },
         p_drop: if on(c) { rate(c, 0.005, 0.2) } else { 0.0 },
         p_dup: if c.bool() { rate(c, 0.01, 0.4) } else { 0.0 },
@@ -229,6 +229,10 @@ fn gen_host(i: usize, w: &mut Rng, twin_of: Option<&HostCfg>, twin_dim: u64) -> 
             2 => {
                 h.v6 = !t.v6;
             }
+            // 3: identical stream key dimensions; the twin's datagrams then
+            // differ from the sibling's only in the upper 16 bits of the
+            // (32-bit, IPv6) identification - see `plan`
+            3 if t.v6 => {}
             _ => h.channel = t.channel + 7,
         }
         return h;
@@ -358,7 +362,7 @@ impl World {
         let mut hosts: Vec<HostCfg> = Vec::new();
         for i in 0..cfg.hosts {
             let twin = if cfg.twins && i % 2 == 1 { hosts.get(i - 1).cloned() } else { None };
-            let dim = w.below(3);
+            let dim = w.below(4);
             hosts.push(gen_host(i, &mut w, twin.as_ref(), dim));
         }
         let mut world = World {
@@ -428,7 +432,14 @@ impl World {
                         .filter(|d| d.host == h - 1)
                         .nth(n)
                         .map(|d| (d.id, d.proto));
-                    sib.unwrap_or((next_id, gen_proto(&mut self.wl, self.hosts[h].v6)))
+                    let same_key_dims = self.hosts[h] == self.hosts[h - 1];
+                    match sib {
+                        // identical hosts: only the upper half of the 32-bit
+                        // IPv6 identification tells the streams apart
+                        Some((id, p)) if same_key_dims => (id ^ (1 << (16 + (n % 16))), p),
+                        Some(x) => x,
+                        None => (next_id, gen_proto(&mut self.wl, self.hosts[h].v6)),
+                    }
                 } else {
                     (next_id, gen_proto(&mut self.wl, self.hosts[h].v6))
                 };
@@ -624,7 +635,7 @@ impl World {
                 // offset + length beyond 65535
                 4 => mk(8191, 8 * self.wl.usize_range(1, 4), self.wl.bool(), &mut self.wl),
                 // zero-length fragments
-                5 => mk(self.wl.usize_range(1, len / 8 + 2), 0, self.wl.bool(), &mut self.wl),
+                5 => mk(self.wl.usize_range(0, len / 8 + 2), 0, self.wl.bool(), &mut self.wl),
                 // overlapping fragment with different content
                 _ => mk(self.wl.usize_range(0, len / 8), 8 * self.wl.usize_range(1, 3), true, &mut self.wl),
             };
